@@ -95,6 +95,7 @@ Model Model::build(Plan const& p, History const& h)
         it->second.result = static_cast<int>(e.b);
         it->second.return_seq = e.seq;
         it->second.return_vt = e.vt;
+        it->second.first_clock = e.d;
       }
       break;
     }
